@@ -47,6 +47,25 @@ def tokenizer_operator_sets(repo: Repo) -> tuple[set[str], set[str]]:
     return singles, multi
 
 
+def expression_fold_rule(repo: Repo, rep: Report, rid: str) -> None:
+    rep.rule(rid, "expression evaluator folded: Expression(cs, text).evaluate(context) is interpreted on a corpus - every ordered pair of binary operators in "
+                  "'a op1 b op2 c' (numbers and names), unary operators in front of and behind every binary operator, parentheses around either half, "
+                  "literal spellings and integer suffixes, context-before-constants lookups (a name bound to 0, names starting with '_'), sizeof, 14 "
+                  "ill-formed texts - and must give the value of an independent C-precedence evaluator (or refuse where that refuses); one Expression "
+                  "object evaluated with a sequence of contexts, failing ones in between, gives for each what a fresh object gives")
+    from ..exprfold import fold_expression
+
+    fi = repo.func("expression.py", "Expression.evaluate")
+    fold = fold_expression(repo)
+    if fold is None:
+        rep.ok(rid, f"{fi.key}:fold", "not foldable with the evaluator's whitelist: the structural rules on the tables and the shunting-yard loop decide", fi.loc(), nontrivial=False)
+        return
+    bad = fold["bad"]
+    b = bad[0] if bad else None
+    rep.check(not bad, rid, f"{fi.key}:fold", f"{fold['cases']} texts and {fold['sequences']} evaluations in sequence agree with the reference",
+              (f"'{b[0]}' with context {b[1]} and constants {b[2]} evaluates to {b[3]}, the reference gives {b[4]} [{len(bad)} discrepancies]") if b else "", fi.loc())
+
+
 def run(repo: Repo, rep: Report, tier: str) -> None:
     R1, R2, R3, R4, R5, R6 = (f"C10.R{i}" for i in range(1, 7))
     rep.rule(R1, "precedence table vs C: order relations between operator groups, equal levels exactly within a group")
@@ -242,6 +261,11 @@ def run(repo: Repo, rep: Report, tier: str) -> None:
     from .c13 import parser_fold_rule
 
     parser_fold_rule(repo, rep, "C10.R15")
+    expression_fold_rule(repo, rep, "C10.R16")
+    from .c16 import arithmetic_rule
+
+    # a pointer derived by arithmetic keeps the context it was parsed with: the size expression of its target is evaluated over the same fields
+    arithmetic_rule(repo, rep, "C10.R17")
 def unary_marking_rule(repo: Repo, rep: Report, rid: str, max_len: int) -> None:
     rep.rule(rid, f"unary-minus marking, bounded-exhaustive: Expression._mark_unary_minus interpreted on every token list up to length {max_len} over "
                   "{-, ~, (, ), number, +, <<} marks a '-' as unary exactly when it starts the list or follows '(' or an operator (a '-' just marked "
